@@ -1,0 +1,23 @@
+//go:build verif
+
+// Contracts for package handler, read by the gvc verifier in /verif (build tag
+// "verif"). No code here: only the package clause and //@ lines.
+
+package handler
+
+// ---------------------------------------------------------------------------
+// Assigners (C17)
+// ---------------------------------------------------------------------------
+
+// Map matches the whole method name.
+//@ func (Map).Assign
+//@   ensures[C17:exact] in(m, method) ==> result == lookup(m, method)
+//@   ensures[C17:unknown] !in(m, method) ==> result == nil
+
+// ServiceMap splits at the first '.' only; a name without one, or with an
+// unknown service, has no handler; empty segments are passed through unchanged.
+//@ func (ServiceMap).Assign
+//@   modifies assignCalls
+//@   ensures[C17:no-dot] idxByte(method, '.') < 0 ==> result == nil && assignCalls == old(assignCalls)
+//@   ensures[C17:unknown-service] idxByte(method, '.') >= 0 && !in(m, substr(method, 0, idxByte(method, '.'))) ==> result == nil && assignCalls == old(assignCalls)
+//@   ensures[C17:first-dot] idxByte(method, '.') >= 0 && in(m, substr(method, 0, idxByte(method, '.'))) ==> result == assignerResult(lookup(m, substr(method, 0, idxByte(method, '.'))), substr(method, idxByte(method, '.') + 1, len(method)))
